@@ -91,6 +91,37 @@ def _deodd(rec):
 
 
 POISON = '<<POISON>>'
+MUTABLE = {'<<SET>>': lambda: {'s1', 's2'}, '<<BYTEARRAY>>': lambda: bytearray(b'ab'),
+           '<<BOX>>': lambda: _Box(['in', 'box'])}
+
+
+class _Box:
+  """A plain user object with mutable state (deep-copyable, compared by value)."""
+
+  def __init__(self, items):
+    self.items = items
+
+  def __eq__(self, other):
+    return isinstance(other, _Box) and self.items == other.items
+
+  __hash__ = None
+
+  def __repr__(self):
+    return f'_Box({self.items!r})'
+
+
+def _scribble(x):
+  """What a careless callee does to a mutable argument."""
+  if isinstance(x, set):
+    x.add('scribbled')
+  elif isinstance(x, bytearray):
+    x.extend(b'!!')
+  elif isinstance(x, _Box):
+    x.items.append('scribbled')
+  elif isinstance(x, list):
+    x.append('scribbled')
+  elif isinstance(x, dict):
+    x['scribbled'] = True
 
 
 class _Boom(Exception):
@@ -141,6 +172,13 @@ def check_case(case):
     for i, (scope, param, value, api, spell) in enumerate(case['bindings']):
       sel = spellings[spell]
       key = (scope + '/' if scope else '') + sel
+      model_value = value
+      if isinstance(value, str) and value in MUTABLE:
+        # a mutable object that is no list / tuple / dict, bound from Python (the model keeps a
+        # separate, equal object: nobody may edit it)
+        model_value, value = MUTABLE[value](), MUTABLE[value]()
+        api = 'tuple' if api in ('parse', 'block') else api
+        labels.add('bound-mutable-object')
       if api == 'str':
         gin.bind_parameter(f'{key}.{param}', value)
       elif api == 'tuple':
@@ -149,7 +187,7 @@ def check_case(case):
         gin.parse_config(f'{key}.{param} = {value!r}')
       else:
         gin.parse_config(f'{key}:\n  {param} = {value!r}\n')
-      model[(scope, param)] = value
+      model[(scope, param)] = model_value
       labels.add('bind:' + api)
     if case.get('poison'):
       # one parameter is bound to an evaluated reference that cannot be evaluated: harmless as long
@@ -311,6 +349,11 @@ def check_case(case):
                     lambda: f'the caller passed {obj!r}; the function received an equal copy, '
                             f'not that object')
           labels.add('call:ok')
+          # the callee edits what it was given in place: later calls and queries still see the
+          # values as bound
+          for x in list(rec['named'].values()) + list(rec['kw'].values()):
+            if not any(x is o for o in args + list(kwargs.values())):
+              _scribble(x)
         if extra_entry is not None:
           stack.exit()
     # ---- classify ------------------------------------------------------------------------
@@ -391,7 +434,7 @@ def strategy(draw):
     for i in range(n):
       param = draw(st.sampled_from([focus]) | st.sampled_from(pool))
       value = draw(st.just('B%d' % i) | st.just('B%d' % i) | st.just(100 + i) | st.just([i, 0]) |
-                   st.sampled_from(FALSY))
+                   st.sampled_from(FALSY) | st.sampled_from(sorted(MUTABLE)))
       bindings.append([draw(scope_st), param, value,
                        draw(st.sampled_from(['str', 'tuple', 'parse', 'block'])),
                        draw(st.sampled_from(['full', 'short']))])
